@@ -6,7 +6,7 @@ from pbt import core
 from hypothesis import given, settings, HealthCheck, Phase, seed
 mod = importlib.import_module("pbt."+sys.argv[1])
 core.install_log_capture()
-stats = collections.Counter(); n=[0]; INC=[]
+stats = collections.Counter(); n=[0]; INC=[]; VIO=[]
 @seed(int(sys.argv[2]) if len(sys.argv)>2 else 1)
 @settings(max_examples=int(sys.argv[3]) if len(sys.argv)>3 else 500, database=None, deadline=None, suppress_health_check=list(HealthCheck), phases=[Phase.generate])
 @given(mod.strategy("quick"))
@@ -24,6 +24,7 @@ def t(spec):
         stats[str(e)[:150]]+=1
     except core.Violation as e:
         stats["VIOLATION "+str(e)[:150]]+=1
+        VIO.append({"bucket": e.bucket, "message": str(e), "count": 1, "spec": spec})
     except core.Inconclusive:
         stats["inconclusive"]+=1
         INC.append(spec)
@@ -37,3 +38,7 @@ import json
 if INC:
     json.dump(INC, open("/verif/.work/inconclusive.json","w"))
     print("inconclusive specs saved to .work/inconclusive.json")
+
+if VIO:
+    json.dump(VIO, open("/verif/.work/violations.json","w"))
+    print("violating specs saved to .work/violations.json")
